@@ -2,6 +2,7 @@
 
 from typing import List, Optional, Set, Union, get_args
 
+from classy_blocks.base.exceptions import EdgeNotFoundError
 from classy_blocks.construct.assemblies.assembly import Assembly
 from classy_blocks.construct.operations.operation import Operation
 from classy_blocks.construct.shape import Shape
@@ -131,6 +132,15 @@ class Mesh:
 
             if entity.geometry is not None:
                 self.add_geometry(entity.geometry)
+
+        # an edge can be declared by an operation that was added after a block sharing it:
+        # every wire takes the edge that is actually written for its pair of vertices
+        for block in self.block_list.blocks:
+            for wire in block.wire_list:
+                try:
+                    wire.edge = self.edge_list.find(*wire.vertices)
+                except EdgeNotFoundError:
+                    pass
 
     def grade(self) -> None:
         if not self.is_assembled:
